@@ -105,13 +105,13 @@ func (C02) Generate(r *core.RNG, tier string, idx uint64) interface{} {
 			p.Sweep = "extensions"
 			p.File.PLen = 65536 * r.Range(1, 2)
 		}
-	case idx%2000 == 44:
+	case idx%1500 == 44:
 		// a with-key tail behind 255..257 honest chunks: the empty-final and counter rules at counters whose low byte is 0 or 255
 		p.File.Recips = []lib.Recip{{Key: &world.Key{T: "x", K: r.Intn(world.NX25519)}}}
 		p.File.PLen = 65536
 		// (prefix length and tail are walked through in a fixed order, not drawn: a batch has only a few of these 16 MiB
 		// cases and the first ones must be the ones that tell an 8-bit counter from an 88-bit one)
-		walk := [][2]int{{256, 1}, {256, 3}, {257, 1}, {255, 1}, {256, 0}, {257, 2}, {255, 3}, {256, 2}, {257, 3}, {255, 0}}[(idx/2000)%10]
+		walk := [][2]int{{256, 1}, {256, 0}, {256, 3}, {257, 1}, {255, 1}, {257, 2}, {255, 3}, {256, 2}, {257, 3}, {255, 0}}[(idx/1500)%10]
 		p.Prefix = walk[0]
 		switch walk[1] {
 		case 0:
